@@ -33,6 +33,7 @@ def cases(tier, seed):
     if tier == "thorough":
         for a in ("example_plt_2d", "example_plt_3d", "plt1_Y", "plt2_F", "plt_eb_3d"):
             cs.append({"kind": "asset", "asset": a, "sel_seed": seed, "budget": 120})
+        cs.append({"kind": "repo_suite", "sel_seed": seed})
     return cs
 
 
@@ -211,6 +212,26 @@ def setup():
 
 
 def run_case(case, work, rec):
+    if case.get("kind") == "repo_suite":
+        # the contracts while the repository's own tests run (real assets, real pools)
+        from .. import reposuite
+        counts, fails, summary, npids = reposuite.run(work, ['headers', 'readers'])
+        rec.count("repo_suite_runs")
+        rec.count("repo_suite_processes_reporting", npids)
+        total = 0
+        for k, v in counts.items():
+            rec.count("repo_suite_calls:" + k, v)
+            total += v
+        rec.sample({"repo_suite": summary, "contract_evaluations": counts})
+        mine = [f for f in fails if f["fail"] in ('mp_read_box','mp_read_bfile','shape_from_header','indices_from_header','header_from_indices')]
+        if total == 0:
+            rec.undecided("no contract evaluated under the repository's suite")
+        for f in mine[:10]:
+            rec.violation(f"contract on {f['fail']} broken while the repository's own tests ran: {f['detail'][:200]}",
+                          witness=f, key=("repo_suite", f["fail"], f["detail"][:80]))
+        if not mine and total:
+            rec.ok(("repo_suite", summary), True)
+        return
     from amr_kitchen import PlotfileCooker
     rng = random.Random(case["sel_seed"])
     if case["kind"] == "asset":
